@@ -317,7 +317,9 @@ def _ipv6_eval(prog, f, declared):
     accept = ["::", "::1", "1::", "2001:db8::8a2e:370:7334", "2001:0db8:85a3:0000:0000:8a2e:0370:7334", "::ffff:192.0.2.1", "fe80::1", "1:2:3:4:5:6:7:8",
               "::2:3:4:5:6:7:8", "1:2:3:4:5:6:7::", "1::8", "1:2:3:4:5:6:1.2.3.4", "::1.2.3.4", "FE80::1", "::FFFF:192.168.0.1", "a:B:c:D:e:F:0:1", "1:2:3:4::6:7:8"]
     reject = ["fe80::1%eth0", "fe80::1%1", "::1%", "2001:db8::/32", "1.2.3.4", "12345::", ":::", "", "::g", "1:2:3:4:5:6:7:8:9", " ::1",
-              "1:2:3:4:5:6:7:8::", "::1\n", "1:2:3:4:5:6:7", "1:2:3:4:5:6:7:", "::1 ", "1::2::3", "::1.2.3", "::256.1.1.1", "[::1]"]
+              "1:2:3:4:5:6:7:8::", "::1\n", "1:2:3:4:5:6:7", "1:2:3:4:5:6:7:", "::1 ", "1::2::3", "::1.2.3", "::256.1.1.1", "[::1]",
+              # strings that only *become* addresses under a case mapping or a compatibility normalisation (U+FB00 upper-cases to "FF")
+              "::\ufb00", "\ufb00::1", "1:2:3:4:5:6:7:\ufb00", "\uff11::", "::\uff11", "\uff1a:1", "::1\u200b", "\ufeff::1"]
     try:
         for sv, want in [(x, True) for x in accept] + [(x, False) for x in reject]:
             try:
@@ -342,7 +344,7 @@ FORMAT_TABLES = {
     "date": (["2020-02-29", "1999-12-31", "0001-01-01", "9999-12-31", "2000-02-29"],
              ["2020-02-30", "2019-02-29", "20200101", "2020-W01-1", "2020-1-01", "2020-01-01\n", "2020-01-01T00:00:00", " 2020-01-01", "\uff12020-01-01", "2020-13-01", "",
               "2020-00-10", "2020-01-32", "1900-02-29", "2020-01-01 ", "2020/01/01", "+2020-01-01", "2020-001", "\u0662\u0660\u0662\u0660-01-01"]),
-    "email": (["a@b", "@", "a@b@c", " @ ", "x@\n"], ["", "ab", "a.b", "\uff20"]),
+    "email": (["a@b", "@", "a@b@c", " @ ", "x@\n", "joe\nbloggs@example.com", "\n@", "a\r\n@b", "\u2028@x", "\x00@", "a" * 300 + "@b"], ["", "ab", "a.b", "\uff20", "\n", "a\nb"]),
 }
 
 
@@ -447,6 +449,10 @@ def run(ctx):
     rule_email(ctx, entries)
     rule_prefilters(ctx, entries)
     done = set()
+    all_names = {}
+    for e in entries:
+        if e.present:
+            all_names.setdefault(e.func, set()).update(v for v in e.names.values() if v)
     for e in entries:
         f = e.func
         if not e.present:
@@ -566,6 +572,7 @@ def run(ctx):
                 r3.fail("%s|superset-delegate|%s" % (f.qual, tgt), site(f, c),
                         "%s hands the string straight to %s, which %s" % (f.name, tgt, SUPERSET_DELEGATES[tgt]))
         # R13.8: tables of near-misses for the formats with a crisp grammar
+        names = sorted(all_names.get(f, set(names)))      # one function may be registered under several names (email, idn-email)
         for fmt in sorted(set(names) & set(FORMAT_TABLES)) + (["ipv4"] if "ip-address" in names and "ipv4" not in names else []):
             r8 = next((x for x in ctx.rules if x.id == "R13.8"), None) or ctx.rule(
                 "R13.8", "on a table of the grammar's strings and their near-misses (one character added, dropped or replaced, trailing newline, non-ASCII digits) "
@@ -592,4 +599,7 @@ def run(ctx):
     # a subset of formats (any iterable of names, walked once) really has the built-in functions for those names
     from .c12 import rule_single_pass
     rule_single_pass(ctx, "R13.7")
+    # R13.9: no behaviour changes at a number fixed in the source (sizes, depths, counts, magnitudes are unbounded in the property's domain)
+    from . import scope as _scope
+    _scope.rule_no_size_thresholds(ctx, 'R13.9', ('_format',), 'the format checkers')
     return
